@@ -38,6 +38,14 @@ type packetizer struct {
 	timegen func() time.Time
 }
 
+// What the abs-send-time extension adds to a packet without other extensions: the 4-byte
+// extension header plus a 1+3 byte element in the one-byte form (ids 1-14), or a 2+3 byte
+// element padded to a 32-bit boundary in the two-byte form.
+const (
+	absSendTimeOverheadOneByte = 8
+	absSendTimeOverheadTwoByte = 12
+)
+
 // NewPacketizer returns a new instance of a Packetizer for a specific payloader.
 func NewPacketizer(
 	mtu uint16,
@@ -70,7 +78,19 @@ func (p *packetizer) Packetize(payload []byte, samples uint32) []*Packet {
 		return nil
 	}
 
-	payloads := p.Payloader.Payload(p.MTU-12, payload)
+	budget := p.MTU - 12
+	if p.extensionNumbers.AbsSendTime != 0 {
+		// leave room for the abs-send-time extension that is added to the last packet
+		overhead := uint16(absSendTimeOverheadOneByte)
+		if p.extensionNumbers.AbsSendTime > 14 {
+			overhead = absSendTimeOverheadTwoByte
+		}
+		if budget > overhead {
+			budget -= overhead
+		}
+	}
+
+	payloads := p.Payloader.Payload(budget, payload)
 	packets := make([]*Packet, len(payloads))
 
 	for i, pp := range payloads {
